@@ -576,6 +576,46 @@ def r8_compound_statements_descend(ctx, rule='C07.R8'):
                'the override for ast.%s does not visit %s: definitions written there exist after import (the dynamic collector yields them) but are invisible to static collection'
                % (kind, missing or 'its children'), anchor=f.qualname)
     rep.note('compound_statement_overrides', n)
+    # an override of generic_visit replaces the descent of ast.NodeVisitor for EVERY node kind without a handler
+    bgv = None
+    classes, _ = ctx.prog.mro(ci)
+    for c in classes:
+        if 'generic_visit' in c.methods:
+            bgv = c.methods['generic_visit']
+            break
+    if bgv is not None:
+        fg = bgv
+        g, calls = _visit_calls(ctx, fg)
+        node_p = fg.node.args.args[1].arg if len(fg.node.args.args) > 1 else None
+        # (a) delegates to the stock implementation on every path
+        sup = [nn for nn in g.nodes for c in node_calls(nn) if isinstance(c.func, ast.Attribute) and c.func.attr == 'generic_visit' and
+               (ast.unparse(c.func.value) in ('super()', 'ast.NodeVisitor') or (isinstance(c.func.value, ast.Call) and is_name(c.func.value.func, 'super')))]
+        wit = graph.must_pass([g.entry], lambda x: x is g.exit, through=sup, efilter=graph.normal_only)
+        if sup and wit is None:
+            rep.ob(rule, ctx.loc(fg, fg.node), 'generic_visit override delegates to ast.NodeVisitor', True, 'stock descent on every path', anchor=fg.qualname)
+        else:
+            txt = ast.unparse(fg.node)
+            generic = any(k in txt for k in ('iter_child_nodes', 'iter_fields', '_fields'))
+            consts_ = {x.value for x in ast.walk(fg.node) if isinstance(x, ast.Constant) and isinstance(x.value, str)}
+            # field lists kept in a class-level or module-level constant
+            for x in ast.walk(fg.node):
+                nm = x.attr if isinstance(x, ast.Attribute) and is_name(x.value, fg.node.args.args[0].arg) else (x.id if isinstance(x, ast.Name) else None)
+                for holder in [c_.assigns for c_ in classes] + [fg.module.assigns]:
+                    if nm in holder and isinstance(holder[nm], (ast.Tuple, ast.List, ast.Set)):
+                        consts_ |= {e.value for e in holder[nm].elts if isinstance(e, ast.Constant) and isinstance(e.value, str)}
+            required = set()
+            for fs_ in COMPOUND_FIELDS.values():
+                required |= set(fs_)
+            if generic and not (consts_ & required):
+                rep.ob(rule, ctx.loc(fg, fg.node), 'generic_visit override walks all fields', True, 'iterates the fields of the node generically', anchor=fg.qualname)
+            elif consts_ & required:
+                missing = sorted(required - consts_)
+                rep.ob(rule, ctx.loc(fg, fg.node), 'generic_visit override descends into %s' % sorted(consts_ & required), not missing,
+                       'every field that can hold nested statements is listed' if not missing else
+                       'the overriding generic_visit only descends into a fixed list of fields and misses %s: definitions written there (e.g. under `match ... case`) are not collected' % missing,
+                       anchor=fg.qualname)
+            else:
+                raise AnalysisError('C07.R8: generic_visit is overridden in a way that was not recognised')
 
 
 # ---------------------------------------------------------------------------
@@ -584,6 +624,7 @@ from ..selftest import fire, silent      # noqa: E402
 SA = 'xdoctest/static_analysis.py'
 CO = 'xdoctest/core.py'
 VARIANTS = [
+    fire('generic-visit-with-fixed-field-list', 'C07.R8', (SA, "    # -- helpers ---\n", "    def generic_visit(self, node):\n        for field in ('body', 'orelse', 'handlers', 'finalbody'):\n            for child in getattr(node, field, None) or []:\n                self.visit(child)\n\n    # -- helpers ---\n")),
     fire('try-handlers-not-visited', 'C07.R8', (SA, "    # -- helpers ---\n", "    def visit_Try(self, node):\n        for child in node.body + node.orelse + node.finalbody:\n            self.visit(child)\n\n    # -- helpers ---\n")),
     silent('try-visited-explicitly', (SA, "    # -- helpers ---\n", "    def visit_Try(self, node):\n        self.generic_visit(node)\n\n    # -- helpers ---\n")),
     fire('walk-list-rebound-before-pruning', 'C07.R6', (SA, "            ispkg = exists(join(dpath, '__init__.py'))\n", "            dnames = sorted(dnames)\n            ispkg = exists(join(dpath, '__init__.py'))\n")),
